@@ -19,6 +19,14 @@ class ConstraintOverrideRollbackVisitor(ConstraintOverrideVisitor):
         v = ConstraintOverrideRollbackVisitor()
         m.accept(v)
         
+    def visit_composite_field(self, f):
+        super().visit_composite_field(f)
+        # Dynamic constraints are only reached through references. A 
+        # referenced one is rewritten (foreach, dist) like any other 
+        # constraint, and must get its original statements back as well
+        for c in f.constraint_dynamic_model_l:
+            c.accept(self)
+        
     def visit_constraint_override(self, c : ConstraintOverrideModel):
         c.depth -= 1
         if c.depth <= 0:
